@@ -133,6 +133,26 @@ def retried_owner(rng):
     return {"compat.pyxis": compat, "scene.pyxis": "use compat;\n" + "\n".join(items) + "\n"}
 
 
+def addressed_first_base(rng):
+    """derived types with their own vftable block whose polymorphic first base carries an explicit address (0: the shared
+    pointer), the base defined before or after them, chains of two or three levels: whether the base has been
+    attempted when the derived type is tried first must not matter"""
+    n = rng.randint(2, 3)
+    items = []
+    for i in range(n):
+        fns = ["pub fn f%d(&self%s)" % (k, ", x: u32" if k % 2 else "") for k in range(i + 1)]
+        body = "    vftable {\n%s;\n    },\n" % ";\n".join("        " + f for f in fns)
+        if i > 0:
+            attr = rng.choice(["#[address(0), base]", "#[base, address(0x0)]", "#[base]", "#[address(0)]\n    #[base]"])
+            body += "    %s\n    pub base: L%d,\n" % (attr, i - 1)
+        body += "    pub v%d: u32,\n" % i
+        items.append("pub type L%d {\n%s}" % (i, body))
+    if rng.random() < 0.5:
+        items.append("pub type User { pub first: *mut L%d, pub inner: L0 }" % (n - 1))
+    rng.shuffle(items)
+    return {"chain.pyxis": "\n".join(items) + "\n"}
+
+
 def runner(pid, prop, tier, seed, scratch, replay=None):
     rng = random.Random(seed)
     ninputs, budget, nfresh = (40, 24, 4) if tier == "quick" else (250, 100, 8)
@@ -156,6 +176,8 @@ def runner(pid, prop, tier, seed, scratch, replay=None):
             inputs.append((case_twins(random.Random(seed * 5519 + j)), 4 if j % 2 == 0 else 8, None))
         for j in range(6 if tier == "quick" else 40):
             inputs.append((generated_vftable_refs(random.Random(seed * 3571 + j)), 4 if j % 2 == 0 else 8, None))
+        for j in range(4 if tier == "quick" else 30):
+            inputs.append((addressed_first_base(random.Random(seed * 6121 + j)), 4 if j % 2 == 0 else 8, None))
         for j in range(4 if tier == "quick" else 30):
             inputs.append((retried_owner(random.Random(seed * 2741 + j)), 4 if j % 2 == 0 else 8, None))
         i = 0
